@@ -358,4 +358,43 @@ theorem ip_value_range (q1 q2 : Bytes) (a b : Nat) (hq1 : IsQuadText q1 a) (hq2 
     simp only [hb0, ↓reduceIte, Nat.pow_zero, true_and]
     omega
 
+/-! ### method names -/
+
+/-- every registered method name, written exactly as squid prints it, is read as that method both from an `acl ... method`
+line and from a request line (checked over the whole table of the staged tree) -/
+theorem registered_methods_parse : ∀ i, 1 ≤ i → i < methodOther →
+    parseMethod (imageOf i) = { id := i } ∧ requestMethod (imageOf i) = { id := i } := by
+  have h : (List.range methodOther).all (fun i => i == 0 ||
+      (parseMethod (imageOf i) == ({ id := i } : Meth) && requestMethod (imageOf i) == ({ id := i } : Meth))) = true := by
+    decide +kernel
+  intro i h1 h2
+  rw [List.all_eq_true] at h
+  have := h i (List.mem_range.mpr h2)
+  have hi : (i == 0) = false := by
+    cases i with
+    | zero => omega
+    | succ n => rfl
+  simp only [hi, Bool.false_or, Bool.and_eq_true, beq_iff_eq] at this
+  exact this
+
+/-- a token that is not a case-insensitive prefix of any method image is an extension method with that very name -/
+theorem methodSearchAcl_none (relaxed : Bool) (tok : Bytes) :
+    ∀ (fuel i : Nat), (∀ j, i ≤ j → j ≤ methodOther → imageCaseCmpToken (imageOf j) tok = false) →
+      methodSearchAcl relaxed tok fuel i = none
+  | 0, _, _ => rfl
+  | fuel + 1, i, h => by
+    rw [methodSearchAcl]
+    split
+    · rfl
+    · rename_i hle
+      have hi : imageCaseCmpToken (imageOf i) tok = false := h i (Nat.le_refl _) (by omega)
+      simp only [hi, Bool.false_and, Bool.false_eq_true, ↓reduceIte]
+      exact methodSearchAcl_none relaxed tok fuel (i + 1) (fun j h1 h2 => h j (by omega) h2)
+
+theorem extension_method_parse (tok : Bytes)
+    (h : ∀ j, 1 ≤ j → j ≤ methodOther → imageCaseCmpToken (imageOf j) tok = false) :
+    parseMethod tok = { id := methodOther, image := tok } := by
+  unfold parseMethod
+  rw [methodSearchAcl_none _ tok _ 1 h]
+
 end SquidModel.Acl.Http
